@@ -183,6 +183,38 @@ def run(ck: Check):
         g = next(x for x in goals if x[0] == lab)
         ck.disagree("largest learnable threshold is not within 1e-4 of the Coq model (interval lemma fails)", g[4], observed=g[2],
                     signature={"what": "threshold-formula"})
+    # order of operations on one object and independence of objects: (i) a frozen layer whose parameters are then replaced
+    # (load_state_dict of another frozen layer, in-place write) codes with its CURRENT thresholds; (ii) two layers built from the
+    # same initial thresholds do not share their parameter: training / freezing the first leaves a later-built one at its initial thresholds
+    from torchlogix.layers import LearnableThermometerThresholding as LTT0
+    for init in ([1.0, 2.0, 3.0], [32.0, 64.0, 96.0, 128.0], [0.5, 0.75, 2.5]):
+        a = LTT0(init_thresholds=init)
+        with torch.no_grad():
+            a.raw_diffs.add_(0.37)                      # "training" the first layer in place
+        a.freeze_thresholds()
+        b = LTT0(init_thresholds=init)                   # built afterwards from the same list
+        tb = b.get_thresholds().detach().double().tolist()
+        ck.case({"kind": "sibling", "init": init}, kind="protocol")
+        if max(abs(x - y) for x, y in zip(tb, init)) > 1e-4:
+            ck.disagree("a layer built from the same initial thresholds as an already trained / frozen layer does not start at its initial thresholds",
+                        {"init": init, "observed": tb}, signature={"what": "shared-parameter"})
+        xin = torch.tensor([[init[0] - 0.1, init[0] + 0.1, init[-1] + 1.0, init[1] + 0.01]]).reshape(1, 2, 2)
+        c = LTT0(init_thresholds=init)
+        c.freeze_thresholds()
+        with torch.no_grad():
+            c(xin)
+        other = LTT0(init_thresholds=[v + 5.0 for v in init])
+        other.freeze_thresholds()
+        c.load_state_dict(other.state_dict())
+        cur = c.get_thresholds().detach()
+        with torch.no_grad():
+            y = c(xin + 5.0)
+        want = (xin.unsqueeze(1) + 5.0 > cur.view(1, -1, 1, 1)).float()
+        ck.case({"kind": "frozen-then-loaded", "init": init}, kind="protocol")
+        if not torch.equal(y, want):
+            ck.disagree("a frozen layer whose parameters were replaced afterwards does not code with its current thresholds",
+                        {"init": init, "current_thresholds": cur.tolist()}, signature={"what": "stale-frozen-thresholds"})
+        ck.count("protocol_checks", 2)
     # integer-valued images stored in integer / half / double dtypes give the code of the float32 image (soft and frozen)
     from torchlogix.layers import LearnableThermometerThresholding as LTT
     torch.manual_seed(ck.seed + 3)
